@@ -284,6 +284,12 @@ Theorem C08_config_default_is_owner_only :
 Proof. exact (allow_plumbing_sound gvs_allow_plumbing (eq_refl true)). Qed.
 Print Assumptions C08_config_default_is_owner_only.
 
+(* Reflective: the secret key is handed on as the plain field at each of the nine stages (ini conversion, MarshalToMsg,
+   UnmarshalFromMsg of the three types): the key a visitor must hold is the key the owner configured, in every format *)
+Theorem C08_sk_plumbing_today : gsk_plumbing_ok gvs_sk_plumbing = true.
+Proof. reflexivity. Qed.
+Print Assumptions C08_sk_plumbing_today.
+
 (* Reflective: Run of STCPProxy, SUDPProxy and XTCPProxy on the server registers the configured key and
    vdefault_allow of the configured list, and defers nothing (a failing Run has nothing of its own to tear down) *)
 Theorem C08_server_runs_today : forall r, In r gvs_server_runs ->
@@ -310,6 +316,60 @@ Theorem C08_resp_reader_today :
   gresp_reader_ok gvs_visitor_resp_readers "SUDPVisitor" = true.
 Proof. split; reflexivity. Qed.
 Print Assumptions C08_resp_reader_today.
+
+(* ---- round 6: Login plugins and the handshake deadline ---- *)
+
+(* "the visitor's authenticated user" is the user after the server's Login plugins have run: the session's user in the
+   specification (the one C08_bridged_implies_key_and_user checks the allowed-users list against) is the outcome of the
+   plugin chain, a rejected login leaves no session behind ... *)
+Theorem C08_session_user_is_after_plugins : forall h rid claimed answers,
+  sp_user (spec_of (h ++ [SLoginVia rid claimed answers])) rid =
+  match plugin_login claimed answers with Some u => Some u | None => sp_user (spec_of h) rid end.
+Proof. exact session_user_is_after_plugins. Qed.
+Print Assumptions C08_session_user_is_after_plugins.
+
+(* ... and once a plugin has rewritten the user, the user the client claimed plays no part: claiming "alice" buys nothing *)
+Theorem C08_plugin_rewrite_forgets_claim : forall u pre post c1 c2,
+  plugin_login c1 (pre ++ PRewrite u :: post) = plugin_login c2 (pre ++ PRewrite u :: post).
+Proof. exact plugin_rewrite_forgets_claim. Qed.
+Print Assumptions C08_plugin_rewrite_forgets_claim.
+
+Theorem C08_plugin_rewrite_last_wins : forall answers c u,
+  ~ In PReject answers -> plugin_login c (answers ++ [PRewrite u]) = Some u.
+Proof. exact plugin_rewrite_last_wins. Qed.
+Print Assumptions C08_plugin_rewrite_last_wins.
+
+(* Reflective (t5v, pkg/plugin/server/manager.go Manager.Login): the content a plugin returns is ASSIGNED to the
+   variable the function returns (a plain "=" under "!res.Unchange", no declaration that would shadow it), so today's
+   chain is the model's plugin_login *)
+Theorem C08_login_plugin_today :
+  exists step, glogin_step gvs_login_assigns gvs_login_guards gvs_login_finals = Some step /\
+    forall claimed answers, plugin_chain step claimed answers = plugin_login claimed answers.
+Proof. exact (login_plugin_sound gvs_login_assigns gvs_login_guards gvs_login_finals (eq_refl true)). Qed.
+Print Assumptions C08_login_plugin_today.
+
+(* Reflective (t5v, client/visitor/stcp.go handleConn, sudp.go getNewVisitorConn whose connection is the stream from
+   its return on): the 10 s deadline is armed while the response is awaited and cleared before the stream is joined,
+   so no read of an admitted stream, however old, fails on it *)
+Theorem C08_handshake_deadline_today :
+  (exists es, ghs_events gvs_handshake_stcp = Some es /\
+     hs_armed_at HReadResp false es = Some true /\ hs_armed_at HJoin false es = Some false /\
+     forall d t, stream_read_ok false d t = true) /\
+  (exists es, ghs_events (gvs_handshake_sudp ++ ["join"%string]) = Some es /\
+     hs_armed_at HReadResp false es = Some true /\ hs_armed_at HJoin false es = Some false /\
+     forall d t, stream_read_ok false d t = true).
+Proof.
+  exact (conj (handshake_sound gvs_handshake_stcp (eq_refl true))
+              (handshake_sound (gvs_handshake_sudp ++ ["join"%string]) (eq_refl true))).
+Qed.
+Print Assumptions C08_handshake_deadline_today.
+
+(* the order that would not do: a reset that is deferred runs after the join *)
+Theorem C08_deferred_reset_refuted :
+  hs_armed_at HJoin false [HArm; HDeferClear; HReadResp; HJoin] = Some true /\
+  exists d t, stream_read_ok true d t = false.
+Proof. exact deferred_reset_refuted. Qed.
+Print Assumptions C08_deferred_reset_refuted.
 
 (* ---- the hypotheses are satisfiable: concrete histories (toy hash: key ++ 8-byte timestamp) ---- *)
 Definition ex_hash (sk : bytes) (ts : Z) : bytes := (sk ++ be 8 ts)%list.
